@@ -252,6 +252,7 @@ class C09(World):
 
         for _ in range(config["n_ops"]):
             kind = pick(rng, w)
+            extra = []
             op = {"op": kind, "rs": new_salt()}
             nodes = list(model.nodes)
             if kind == "update_new" or (kind in ("update_edge", "reparent", "get", "getitem", "get_many", "remove_node") and len(nodes) < 2):
@@ -275,9 +276,18 @@ class C09(World):
                     continue
                 to = rng.choice(cs)
                 op["to"], op["frm"] = to, model.parent[to]
-                if rng.random() < 0.25:
+                u = rng.random()
+                if u < 0.25:
                     # exactly the same matrix again
                     op.update({"how": "matrix", "cls": "same", "matrix": model.mat[to].tolist()})
+                elif u < 0.4:
+                    # far from the origin, then moved by a centimetre: a change below 1e-5 of the entries is still a change
+                    far = np.array(_edge_matrix(rng, "rigid"))
+                    far[:3, 3] = [2500.0, -1300.0, 800.0]
+                    op.update({"how": "matrix", "cls": "far", "matrix": far.tolist()})
+                    near = far.copy()
+                    near[:3, 3] += [0.01, -0.005, 0.004]  # each below 1e-5 of the entry it changes
+                    extra.append({"op": "update", "rs": new_salt(), "to": to, "frm": model.parent[to], "how": "matrix", "cls": "nudge", "matrix": near.tolist()})
                 else:
                     op.update(_gen_how(rng))
                 if rng.random() < 0.2:
@@ -341,6 +351,12 @@ class C09(World):
             except Inapplicable:
                 continue
             ops.append(op)
+            for e in extra:
+                try:
+                    self._apply_model(model, e)
+                except Inapplicable:
+                    continue
+                ops.append(e)
         return {"config": config, "ops": ops}
 
     # ------------------------------------------------------------------ model transition
@@ -589,8 +605,8 @@ class C09(World):
         edges = graph.to_edgelist()
         ctx.count("check:edgelist")
         # exported edges are exactly the current edges
-        got_edges = sorted((e[0], e[1]) for e in edges)
-        want_edges = sorted((p, c) for c, p in model.parent.items())
+        got_edges = sorted(((e[0], e[1]) for e in edges), key=repr)  # (an export may hold anything: compared, never trusted)
+        want_edges = sorted(((p, c) for c, p in model.parent.items()), key=repr)
         if got_edges != want_edges:
             ctx.fail("model", "edgelist-edges", f"exported {got_edges} != current {want_edges}")
         g2 = SceneGraph(base_frame=graph.base_frame)
